@@ -103,6 +103,16 @@ theorem C20d_derivative_exact (t : Nat × Nat × List Int × Int) (ht : t ∈ Ge
   rw [this]
   field_simp
 
+/-- **gradient clause on the executable model**: if the restriction of `f` to coordinate `i` through `x` is a polynomial of degree
+below the stencil size, `gradient` returns its exact `n`-th derivative at `x i` — any regenerated table, any non-zero step -/
+theorem C20d_partial_exact (t : Nat × Nat × List Int × Int) (ht : t ∈ Gen.diffTables) (f : (Nat → ℝ) → ℝ) (i : Nat) (x : Nat → ℝ)
+    (p : ℝ[X]) (hp : p.natDegree < t.2.1) (hf : ∀ s, f (fun k => if k = i then s else x k) = p.eval s) (dx : ℝ) (hdx : dx ≠ 0) :
+    partialD t f i x dx = (Polynomial.derivative^[t.1] p).eval (x i) := by
+  unfold partialD
+  have : (fun s => f (fun k => if k = i then s else x k)) = fun s => p.eval s := funext hf
+  rw [this]
+  exact C20d_derivative_exact t ht p hp (x i) dx hdx
+
 /-- non-vacuity: the three-point first-derivative table on `x^2` at `x0 = 3`, `dx = 1/2`: exactly `6` -/
 example : derivative (1, 3, [-1, 0, 1], 2) (fun x => (X ^ 2 : ℝ[X]).eval x) 3 (1 / 2) = 6 := by
   rw [C20d_derivative_exact _ (by decide) _ (by rw [natDegree_X_pow]; norm_num) 3 (1 / 2) (by norm_num)]
